@@ -42,7 +42,8 @@ Definition kept (s s' : state) (m : nat) : Prop :=
   ph (Rn s m) <> POver /\
   (rcanc (Rn s m) = true -> rcanc (Rn s' m) = true) /\
   (ph (Rn s m) = PMain -> ph (Rn s' m) <> POver -> forall y, In y (pend (Rn s' m)) ->
-     finished (st (Jb s y)) = false /\ Jb s' y = cancel_j (Jb s y)).
+     finished (st (Jb s y)) = false /\ Jb s' y = cancel_j (Jb s y)) /\
+  (ph (Rn s m) <> PMain -> pend (Rn s' m) = pend (Rn s m)).
 
 Lemma filter_true_id (l : list nat) : l = filter (fun _ => true) l.
 Proof. induction l as [|a l IH]; simpl; congruence. Qed.
@@ -492,6 +493,7 @@ Proof.
         split; [intros; discriminate|]. split; [intros; discriminate|].
         split; [intros _; left; reflexivity|]. split; [intros; discriminate|].
         split; [discriminate|]. split; [auto|].
+        split; [|intros H; exfalso; apply H; reflexivity].
         intros _ _ y Hy. split.
         - rewrite Eu0 in Hy. apply filter_In in Hy. destruct Hy as [_ Hy].
           apply negb_true_iff in Hy. exact Hy.
